@@ -395,8 +395,11 @@ def record(rid, lang, a, b, obs, keys):
 
 
 def signature(lang, clause, a, b, obs, model):
+    """property | clause | target | structural class: WHICH option's difference goes unnoticed (pairs differing in several options are
+    one class: they add nothing over the single-option pairs), WHICH kind of header stays silent, WHERE an identical build breaks"""
     ea, eb = model.expand(lang, a), model.expand(lang, b)
-    diff = "+".join(sorted(k for k in ea if ea[k] != eb.get(k))) or "-"
+    dk = sorted(k for k in ea if ea[k] != eb.get(k))
+    diff = dk[0] if len(dk) == 1 else ("several-options" if dk else "-")
     if clause == "guard.iff.mismatch_accepted":
         return "C17|guard.iff|%s|mismatch-accepted|%s" % (lang, diff)
     if clause == "guard.iff.identical_rejected":
@@ -405,9 +408,9 @@ def signature(lang, clause, a, b, obs, model):
         return "C17|guard.message|%s|missing|%s" % (lang, diff)
     if clause == "guard.message.header_silent":
         silent = "+".join(sorted(pathlib.PurePosixPath(h).stem for h in obs["headers"] if h not in obs["fired_headers"]))
-        return "C17|guard.message|%s|header-silent|%s|%s" % (lang, silent, diff)
+        return "C17|guard.message|%s|header-silent|%s" % (lang, silent)
     if clause == "guard.message.spurious":
-        return "C17|guard.message|%s|spurious|%s" % (lang, "+".join(obs["fired"]) or "?")
+        return "C17|guard.message|%s|spurious|%s" % (lang, obs["fired"][0] if len(obs["fired"]) == 1 else ("several-options" if obs["fired"] else "?"))
     return "C17|%s|%s|%s" % (clause, lang, diff)
 
 
